@@ -19,7 +19,7 @@ def uri_guard(ctx, uris, prefixes=()):
     scope>:' cannot be told from a prefixed name by NamespaceManager.valid_qualified_name (see known_findings.json)."""
     fid = "%s.uri_scheme_is_prefix" % ctx.params.get("prop", "C01")
     for u in uris:
-        for p in ("ex", "prov", "xsd", "xsi") + tuple(prefixes):
+        for p in ("ex", "bid", "prov", "xsd", "xsi") + tuple(prefixes):
             ctx.finding(fid, u.startswith(p + ":"))
 
 
